@@ -178,7 +178,7 @@ def obligations(tier):
     q = tier == 'quick'
     T = 170 if q else 1500
     kinds = ('completed', 'crash_before_publication', 'crash_after_publication')
-    for nw in range(0, 4 if q else 5):
+    for nw in range(0, 3 if q else 5):
         obs.append(Ob('crash_law', timeout=T, pins={'text': 0, 'nwrites': nw, 'part': nw % 2}, need_kinds=kinds))
     for nw in (1, 3):
         obs.append(Ob('crash_law', timeout=T, pins={'text': 1, 'nwrites': nw, 'part': 0}, need_kinds=kinds))
